@@ -6,7 +6,7 @@ a partial_fit, often arm changes / warm start / refit - is run on both; the outp
 bit-for-bit.  Behaviour is compared, not raw state (LSH look-ups insert empty buckets, Thompson caches its
 last draw: invisible by design).
 
-As built: Workload extras: far-away rows (empty neighbourhoods) and 40 / 130-row batches among the intervening queries and in the continuation. Half of the threaded query phases run with the GIL handed over every microsecond; queries arrive in the history's habitual container; refits inside the continuation may change the width. Arm changes under no_nhood_prob_of_arm (K6); the public policy objects are compared at the end of every continuation. Round 8: a third of the continuations start with a full refit whose data omits an arm, queried straight away.
+As built: Workload extras: far-away rows (empty neighbourhoods) and 40 / 130-row batches among the intervening queries and in the continuation. Half of the threaded query phases run with the GIL handed over every microsecond; queries arrive in the history's habitual container; refits inside the continuation may change the width. Arm changes under no_nhood_prob_of_arm (K6); the public policy objects are compared at the end of every continuation. Round 8: a third of the cases run a second continuation on copies of both twins that starts with a full refit whose data omits an arm, queried straight away.
 """
 from mon import env  # noqa: F401
 import copy
@@ -50,22 +50,20 @@ def run_case(rs, ctx):
         gen.gen_ops(rs, cfg, sh, int(rs.integers(0, 4)), ["partial_fit", "add_arm", "remove_arm", "warm_start"])
     queries = gen.gen_ops(rs, cfg, sh, int(rs.integers(1, 7)), ["predict", "predict_expectations"],
                           sizes=(1, 2, 3, 5, 8) if rs.integers(3) else (1, 3, 40, 130))
-    pre = []
-    rs_main = rs
+    cont2 = None
     if ctx.index % 3 == 2:
-        rs = np.random.default_rng([int(ctx.seed), 10, int(ctx.index), 8])  # own stream: the other two thirds of the cases are unchanged
-        # the continuation starts with a full refit whose data omits an arm, queried straight away: whatever the queries left
-        # behind for that arm is not overwritten by the training of the refit
+        # a second continuation, run on copies of both twins: it starts with a full refit whose data omits an arm, queried straight
+        # away (whatever the queries left behind for that arm is not overwritten by the training of the refit). It draws from a
+        # stream of its own, so the first continuation - and with it every case of earlier rounds - stays exactly as it was
+        rs2 = np.random.default_rng([int(ctx.seed), 10, int(ctx.index), 8])
         for _ in range(12):
             sh2 = copy.deepcopy(sh)
-            f = gen.gen_ops(rs, cfg, sh2, 1, ["fit"], train_rows=(4, 12))
+            f = gen.gen_ops(rs2, cfg, sh2, 1, ["fit"], train_rows=(4, 12))
             if f and any(a not in f[0]["d"] for a in sh2.arms):
-                sh = sh2
-                pre = f + gen.gen_ops(rs, cfg, sh, 2, ["predict_expectations", "predict"])
+                cont2 = f + gen.gen_ops(rs2, cfg, sh2, 2, ["predict_expectations", "predict"]) + gen.gen_continuation(rs2, cfg, sh2)
                 ctx.count("continuations_starting_with_a_refit_that_omits_an_arm")
                 break
-    rs = rs_main
-    cont = pre + gen.gen_continuation(rs, cfg, sh)
+    cont = gen.gen_continuation(rs, cfg, sh)
     for o in cont + queries:
         if o["op"] in ("predict", "predict_expectations") and o.get("X") is not None and gen.is_ctx(cfg) and rs.integers(3) == 0:
             o["X"][-1] = [50.0 + v for v in o["X"][-1]]  # a far-away row: empty neighbourhood for Radius, rare bucket for LSH
@@ -98,9 +96,14 @@ def run_case(rs, ctx):
         ctx.violation("%s: a query raised: %r" % (gen.cfg_sig(cfg), [x for x in qa if isinstance(x, list) and x[:1] == ["EXC"]][:1]), wit)
         return
     rngs.graft(A, B)
+    A2, B2 = (copy.deepcopy(A), copy.deepcopy(B)) if cont2 else (None, None)
     oa, ob = gen.run_ops(A, cont), gen.run_ops(B, cont)
     ctx.ev()
     d = twin.first_diff(oa, ob)
+    if not d and cont2:
+        wit["continuation"] = cont2
+        ctx.ev()
+        d = twin.first_diff(gen.run_ops(A2, cont2), gen.run_ops(B2, cont2))
     if d:
         ctx.violation("%s (n_jobs=%d, backend=%s): after %d queries the bandit differs from its never-queried twin: %s" % (
             gen.cfg_sig(cfg), n_jobs, backend, len(queries), d), wit)
